@@ -692,6 +692,7 @@ impl Pair {
     pub fn inverse(&self) -> ClResult<Pair> {
         let mut r = self.pair;
         r.conj();
+        r.reduce();
         Ok(Pair { pair: r })
     }
 
